@@ -193,6 +193,51 @@ func cafsReadSeq(st *memstore.Store, leaf int, key cafs.Key, r *tr.Rng, bufs []i
 	return mode, fmt.Sprintf("ok %s calls=%s", cafsH256(out), strings.Join(calls, ","))
 }
 
+// cafsHistory applies one piece of store history to an object stored earlier: a crash remnant
+// (one of its blobs left empty, cut or altered by an interrupted or faulty upload) or its deletion
+// through the long-lived instance.
+func cafsHistory(c *ctx, r *tr.Rng, st *memstore.Store, fs cafs.Fs, h *cafsObj, hi int) {
+	lks := h.leafKeys // as reported by the put (the root blob may be damaged by now)
+	switch r.Intn(4) {
+	case 0: // delete through the same long-lived instance
+		res := "ok"
+		if e := corekit.Recover(func() error { return fs.Delete(context.Background(), h.key) }); e != nil {
+			res = "err"
+		}
+		c.w.Op(fmt.Sprintf("delete obj=%d", hi), res)
+		c.w.Count("hist=delete")
+	default:
+		target, bk := "root", h.key.String()
+		if len(lks) > 0 && r.Intn(3) != 0 {
+			q := r.Intn(len(lks))
+			target, bk = fmt.Sprint(q), lks[q]
+		}
+		cur, present := st.Raw(bk)
+		if !present {
+			break
+		}
+		kind := r.Intn(4)
+		switch {
+		case kind <= 1 || len(cur) == 0: // emptied: what an interrupted upload leaves
+			st.SetRaw(bk, []byte{})
+			c.w.Note(fmt.Sprintf("damage obj=%d blob=%s kind=trunc arg=0", hi, target))
+			c.w.Count("hist=remnant-empty")
+		case kind == 2:
+			to := r.Intn(len(cur))
+			st.SetRaw(bk, append([]byte(nil), cur[:to]...))
+			c.w.Note(fmt.Sprintf("damage obj=%d blob=%s kind=trunc arg=%d", hi, target, to))
+			c.w.Count("hist=remnant-cut")
+		default:
+			bit := r.Intn(len(cur) * 8)
+			nb := append([]byte(nil), cur...)
+			nb[bit/8] ^= 1 << uint(bit%8)
+			st.SetRaw(bk, nb)
+			c.w.Note(fmt.Sprintf("damage obj=%d blob=%s kind=flip arg=%d", hi, target, bit))
+			c.w.Count("hist=remnant-flip")
+		}
+	}
+}
+
 type cafsPlainWriter struct{ b bytes.Buffer }
 
 func (w *cafsPlainWriter) Write(p []byte) (int, error) { return w.b.Write(p) }
@@ -546,6 +591,29 @@ func c01(c *ctx) error {
 			}
 			c.w.Op(fmt.Sprintf("read obj=%d style=writeto-at", o), cafsWriteTo(fs, ob.key, true))
 			c.w.Op(fmt.Sprintf("read obj=%d style=writeto-stream", o), cafsWriteTo(fs, ob.key, false))
+			// store history, then the same content stored again through the same long-lived instance:
+			// it reads back exactly from a fresh instance (and the model says when it cannot)
+			if r.Intn(3) == 0 {
+				cafsHistory(c, r, st, fs, ob, o)
+				plan2, single2 := cafsChunkPlan(r, ln, leaf)
+				ob2, ok2 := cafsPut(c, fs, o+10, seed, ln, plan2, single2)
+				c.w.Count("reput-after-history")
+				if ok2 {
+					fresh, _, e := cafsNewFs(st, leaf, r)
+					if e == nil {
+						res, _ := cafsReadAll(fresh, ob2.key, []int{leaf})
+						if !strings.HasPrefix(res, "ok ") {
+							res = "err"
+						}
+						c.w.Op(fmt.Sprintf("read obj=%d style=readall bufs=%d", o+10, leaf), res)
+						res = cafsReadAt(fresh, ob2.key, 0, ln+1)
+						if !strings.HasPrefix(res, "ok ") {
+							res = "err"
+						}
+						c.w.Op(fmt.Sprintf("read obj=%d style=readat off=0 n=%d", o+10, ln+1), res)
+					}
+				}
+			}
 		}
 		c.w.End()
 	})
@@ -606,46 +674,7 @@ func c02(c *ctx) error {
 			// interrupted or faulty upload (crash remnant), or an earlier object deleted
 			if len(hist) > 0 && r.Intn(2) == 0 {
 				j := r.Intn(len(hist))
-				h, hi := hist[j], idx[j]
-				lks := h.leafKeys // as reported by the put (the root blob may be damaged by now)
-				switch r.Intn(4) {
-				case 0: // delete through the same long-lived instance
-					res := "ok"
-					if e := corekit.Recover(func() error { return fs.Delete(context.Background(), h.key) }); e != nil {
-						res = "err"
-					}
-					c.w.Op(fmt.Sprintf("delete obj=%d", hi), res)
-					c.w.Count("hist=delete")
-				default:
-					target, bk := "root", h.key.String()
-					if len(lks) > 0 && r.Intn(3) != 0 {
-						q := r.Intn(len(lks))
-						target, bk = fmt.Sprint(q), lks[q]
-					}
-					cur, present := st.Raw(bk)
-					if !present {
-						break
-					}
-					kind := r.Intn(4)
-					switch {
-					case kind <= 1 || len(cur) == 0: // emptied: what an interrupted upload leaves
-						st.SetRaw(bk, []byte{})
-						c.w.Note(fmt.Sprintf("damage obj=%d blob=%s kind=trunc arg=0", hi, target))
-						c.w.Count("hist=remnant-empty")
-					case kind == 2:
-						to := r.Intn(len(cur))
-						st.SetRaw(bk, append([]byte(nil), cur[:to]...))
-						c.w.Note(fmt.Sprintf("damage obj=%d blob=%s kind=trunc arg=%d", hi, target, to))
-						c.w.Count("hist=remnant-cut")
-					default:
-						bit := r.Intn(len(cur) * 8)
-						nb := append([]byte(nil), cur...)
-						nb[bit/8] ^= 1 << uint(bit%8)
-						st.SetRaw(bk, nb)
-						c.w.Note(fmt.Sprintf("damage obj=%d blob=%s kind=flip arg=%d", hi, target, bit))
-						c.w.Count("hist=remnant-flip")
-					}
-				}
+				cafsHistory(c, r, st, fs, hist[j], idx[j])
 				c.w.Op("snapshot", cafsSnapshot(st))
 			}
 		}
